@@ -62,6 +62,8 @@ def generate(rng, tier, shard, nshards):
                 vis.update(marker=rng.choice(['x', 'o', '+']), markersize=7)
             elif cls not in ('TextPixelRegion', 'PointPixelRegion') and rng.random() < 0.4:
                 vis.update(fill=rng.choice([True, False]), linestyle=(0, (8, 3)))
+        if cls == 'PointPixelRegion' and style == 'none' and rng.random() < 0.5:
+            vis = {'symbol': rng.choice(['.', 'x', '+', 'o', 's']), 'symsize': rng.choice([5, 9])}       # keys as the CRTF reader produces them
         reg['visual'] = vis
         kw = {}
         if rng.random() < 0.6:
@@ -189,6 +191,10 @@ def run_case(case, obs):
         for k, v in kw.items():
             got = {'markersize': art.get_markersize(), 'markeredgecolor': art.get_markeredgecolor(), 'marker': art.get_marker(), 'alpha': art.get_alpha()}[k]
             obs.check(colour_eq(got, v) if k == 'markeredgecolor' else got == v, 'caller-kwargs-do-not-override', f'{cls}: {k}={v!r} not applied (got {got!r})', 'kwargs-override')
+        if 'symbol' in reg.visual and 'marker' not in kw:
+            obs.check(art.get_marker() == reg.visual['symbol'], 'visual-not-applied', f'visual symbol {reg.visual["symbol"]!r} not applied as marker (got {art.get_marker()!r})', 'visual-applied')
+        if 'symsize' in reg.visual and 'markersize' not in kw:
+            obs.check(art.get_markersize() == reg.visual['symsize'], 'visual-not-applied', 'visual symsize not applied as markersize', 'visual-applied')
         if 'markersize' in reg.visual and 'markersize' not in kw:
             obs.check(art.get_markersize() == reg.visual['markersize'], 'visual-not-applied', 'visual markersize not applied', 'visual-applied')
         if 'marker' in reg.visual and 'marker' not in kw:
